@@ -321,7 +321,7 @@ def main(chk, args):
                                mode=c['mode'], events=[g] + [ev(**e) for e in run['events']]))
             tmeta.append((rkey, c, run))
     # 5. code -> spec: batched trace validation
-    accepted, rejected, runs_ = tlc.validate_all('LroTrace', 'LroTrace.cfg', traces, timeout=1500, max_rejects=25)
+    accepted, rejected, runs_ = tlc.validate_all('LroTrace', 'LroTrace.cfg', traces, timeout=1500, max_rejects=8)
     for r4 in runs_:
         chk.states += r4.distinct
         chk.transitions += r4.generated
